@@ -15,6 +15,24 @@ pub use rights::Right;
 #[cfg(any(test, feature = "test-utils"))]
 pub use tests::gen_structure;
 
+/// Reads a length-prefixed vector of bytes.
+///
+/// The announced length is checked against the number of bytes left to read
+/// before allocating the vector, since it comes from untrusted bytes.
+pub(crate) fn read_vec(
+    de: &mut cosmian_crypto_core::bytes_ser_de::Deserializer,
+) -> Result<Vec<u8>, crate::Error> {
+    let mut remaining = cosmian_crypto_core::bytes_ser_de::Deserializer::new(de.value());
+    let len = remaining.read_leb128_u64()?;
+    if (remaining.value().len() as u64) < len {
+        return Err(crate::Error::ConversionFailed(format!(
+            "vector of {len} bytes announced but only {} bytes left",
+            remaining.value().len()
+        )));
+    }
+    Ok(de.read_vec()?)
+}
+
 #[derive(Clone, Copy, Debug, PartialEq, Eq, PartialOrd, Ord)]
 pub enum Version {
     V1,
